@@ -105,6 +105,20 @@ type vfServer struct {
 	alloc    *allocator
 }
 
+// vfOptMix (set per run from cfg.optmix) permutes the order in which server options are applied; 0 keeps the fixed order.
+var vfOptMix uint64
+
+func vfShuffleOpts[T any](opts []T) []T {
+	if vfOptMix == 0 {
+		return opts
+	}
+	for i := len(opts) - 1; i > 0; i-- {
+		j := int(vfMix(vfOptMix, uint64(i)) % uint64(i+1))
+		opts[i], opts[j] = opts[j], opts[i]
+	}
+	return opts
+}
+
 // vfStartServer creates the link and the server (inside the bubble) and starts Serve.
 func vfStartServer(sim *vfSim, kind int, alloc bool, fs *sfs, hopt int, root string, readOnly bool, startDir string, maxTx uint32) *vfServer {
 	v := &vfServer{sim: sim, kind: kind, fs: fs, root: root}
@@ -125,7 +139,10 @@ func vfStartServer(sim *vfSim, kind int, alloc bool, fs *sfs, hopt int, root str
 		if maxTx != 0 {
 			opts = append(opts, WithMaxTxPacket(maxTx))
 		}
-		srv, err := NewServer(v.end, opts...)
+		if vfOptMix%2 == 1 {
+			opts = append(opts, WindowsRootEnumeratesDrives()) // documented as meaningful on Windows only
+		}
+		srv, err := NewServer(v.end, vfShuffleOpts(opts)...)
 		if err != nil {
 			panic(err)
 		}
@@ -150,7 +167,7 @@ func vfStartServer(sim *vfSim, kind int, alloc bool, fs *sfs, hopt int, root str
 		if maxTx != 0 {
 			opts = append(opts, WithRSMaxTxPacket(maxTx))
 		}
-		rs := NewRequestServer(v.end, fs.handlers(hopt), opts...)
+		rs := NewRequestServer(v.end, fs.handlers(hopt), vfShuffleOpts(opts)...)
 		v.rs = rs
 		v.alloc = rs.pktMgr.alloc
 		go func() {
